@@ -21,27 +21,34 @@ PROP = {
                   "follow. rch::lr (= base on its own port) and rch::oneshot (= mpsc, buffer 1, one send) are corollaries. The statement "
                   "holds for ALL item attempts since the repair of finding F15 (the feed loop skips to the end of the message when the "
                   "deserializer has ended early); its former witnesses are positive examples (vm_compute) and corpus cases. Tie: differential run of the real base/lr/mpsc/oneshot channels over a real two-endpoint "
-                  "connection against the extracted model, number by number, plus an independent trace oracle.",
+                  "connection against the extracted model, number by number, plus an independent trace oracle; the differential run includes receives whose pending future is dropped and repeated while the "
+                  "deserializer thread of a streamed value is held (chunk queue to it full or not), which must give the result of an undisturbed receive.",
     "level_note": "Trusted: Coq kernel (+vm_compute), extraction (ExtrOcamlBasic only) and mrun glue (sample re-checked in-kernel), harness, its "
                   "transport and its quiescence barrier (paused clock; while (de)serializer threads are outstanding: all other threads asleep and "
                   "observables stable over several real-time ticks). Abstracted: the codec (a value is its encoding; serde/postbag assumed exact "
                   "and self-delimiting); the spawn_blocking (de)serializer threads beyond 'chunks in order, stops at the failure / when the value "
                   "is complete' (the narrow race in which the deserializer thread drops its channel between permit.send and the next reserve is "
-                  "not exhibited); the chmux layer below is the C01-C03 model: the receiver theorems quantify over arbitrary framings of complete/unfinished "
+                  "not exhibited; a deserializer slower than the transport is exhibited only as 'held at one payload byte until released', with the recv future "
+                  "dropped at quiescence, i.e. at the await point where the call is blocked); the chmux layer below is the C01-C03 model: the receiver theorems quantify over arbitrary framings of complete/unfinished "
                   "messages, and C04_port_emits_framings proves on the PortFlow model that under every port schedule a base sender's port emits "
                   "exactly such a framing (the identification of the attempt list with send_all's output is by definition of base_send, not a "
                   "composed state machine); connection failure appears as 'the schedule stops' (prefix) and, for mpsc, as an explicit final-error action; "
                   "mpsc::Receiver::recv_many (documented to lose a batch on a non-final error) and Distributor are not modelled. For mpsc with "
                   "moved senders both base halves use the sender's max_item_size, so 'too large for the receiver only' is exercised on base/lr.",
     "trivial_sig": r"^(unparsable|setup-failed)$",
-    "rule": "cases from one PRNG (VERIF_SEED), 20 slots: 7 base channel with nothing blocking (sends and receives interleaved, a pending recv is "
-            "dropped and repeated), 4 base channel with receive buffer 64..200 and an idle receiver (sends run out of credit and are cancelled, "
+    "rule": "cases from one PRNG (VERIF_SEED), 20 slots: 6 base channel with nothing blocking (sends and receives interleaved, a pending recv is "
+            "dropped and repeated; 1 recv in 6, also in the lr slots, is a stalled one with 1-2 drops and `at` 0..19, see below), 1 base (3 in 4) or lr channel with chunk size 4..8, max_data_size 8..64 and 2-5 values of which 2 in 3 are "
+            "streamed in 29..96 chunks (half of them within -3..+6 of the 32-chunk queue between recv and the deserializer thread; Serialize failing 1 in 6, undecodable 1 in 10, "
+            "receiver max_item_size 64..300 in 1 case of 4) met by stalled receives: the harness value's Deserialize, when it runs on a helper thread, is held before payload byte "
+            "`at` (0, 0..11 or anywhere in the value) so that the chunk queue runs full, the pending recv future is dropped and recv called again 1-3 times, then the "
+            "deserializer is released and the call awaited; the model decodes a stalled recv as a plain recv (cancel safety: same result required, compared exactly), "
+            "4 base channel with receive buffer 64..200 and an idle receiver (sends run out of credit and are cancelled, "
             "credit arithmetic in the model), 4 mpsc with 1-3 remote senders (bursts per sender, drops of senders, rejection after a failure), "
             "2 lr, 1 oneshot (fresh channel per item), 1 mpsc with concurrent senders and a local buffer of 1-2 (oracle only), 1 stream of unfinished "
             "messages that carry a complete encoding with a repeated recv (the former finding F15; also 1 in 4 x 1/(plen+1) elsewhere); Cfg: max_data_size of sender and receiver drawn independently from 8..1000, chunk size "
             "4..64, max_item_size on either side 10..150 or large; payload sizes around every limit (+-1), chunk multiples, 0..260; Serialize "
             "failing after k payload bytes (1 in 4), undecodable values (1 in 10), a channel half inside the value (1 in 6, kept clear of the "
-            "limits by the 4 bytes its random port number may vary); every op is followed by the quiescence barrier; compared exactly: send "
+            "limits by the 4 bytes its random port number may vary); every op (and every drop / repetition / release inside a stalled recv) is followed by the quiescence barrier; compared exactly: send "
             "result class, buffered/streamed mode and data bytes seen on the wire per send, every recv result; a case is non-trivial unless "
             "unparsable; distinct = distinct input",
     "assumptions": [
